@@ -875,6 +875,75 @@ func childTxn() {
 
 // ---------- child: start a proxy under a saved configuration and serve requests ----------
 
+// childRefused: start-up over an EXISTING configuration file that has to be refused and that carries non-default values.
+// "Resetting to defaults" must put the defaults in force — every setting — and leave a file that loads and says the same.
+// One line per kind of refused file: "<kind> ok" | "<kind> bad <what>" | "<kind> accepted" (the file was not refused).
+func childRefused() {
+	slog.SetDefault(slog.New(slog.NewTextHandler(io.Discard, nil)))
+	cfgPath := "var/config.json"
+	config.VerifSetConfigPath(cfgPath)
+	def := fieldsOf(config.NewDefault())
+	for _, kind := range []string{"verify-failure", "unknown-key", "ill-typed"} {
+		c0 := config.NewDefault()
+		fs := fieldsOf(c0)
+		set := func(path string, v reflect.Value) {
+			for _, f := range fs {
+				if f.path() == path {
+					f.setBase(v)
+				}
+			}
+		}
+		// non-default values that are fine in themselves
+		set("proxy.listen", reflect.ValueOf(":1234"))
+		set("logging.max_backups", reflect.ValueOf(9))
+		set("proxy.retry_on_range_416", reflect.ValueOf(false))
+		if kind == "verify-failure" {
+			set("cache.lock_shards", reflect.ValueOf(0))
+		}
+		if err := config.VerifPersist(c0); err != nil {
+			fmt.Println(kind + " bad cannot write the file: " + err.Error())
+			continue
+		}
+		text, _ := os.ReadFile(cfgPath)
+		switch kind {
+		case "unknown-key":
+			text = []byte(strings.Replace(string(text), "{", "{\"setting_of_another_version\": 1,", 1))
+		case "ill-typed":
+			text = []byte(strings.Replace(string(text), "\"max_backups\": 9", "\"max_backups\": \"nine\"", 1))
+		}
+		os.WriteFile(cfgPath, text, 0644)
+		if _, err := config.VerifLoad(cfgPath); err == nil {
+			fmt.Println(kind + " accepted")
+			continue
+		}
+		cfg, err := config.LoadOrDefault(cfgPath)
+		if err != nil {
+			fmt.Println(kind + " bad LoadOrDefault failed: " + err.Error())
+			continue
+		}
+		bad := ""
+		for i, f := range fieldsOf(cfg) {
+			if valOf(f.read()) != valOf(def[i].read()) {
+				bad += fmt.Sprintf(" %s=%v (default %v)", f.path(), valOf(f.read()), valOf(def[i].read()))
+			}
+		}
+		if re, err := config.VerifLoad(cfgPath); err != nil {
+			bad += " the file left behind does not load: " + err.Error()
+		} else {
+			for i, f := range fieldsOf(re) {
+				if valOf(f.read()) != valOf(def[i].read()) {
+					bad += fmt.Sprintf(" file:%s=%v", f.path(), valOf(f.read()))
+				}
+			}
+		}
+		if bad != "" {
+			fmt.Println(kind + " bad" + bad)
+		} else {
+			fmt.Println(kind + " ok")
+		}
+	}
+}
+
 func childStart() {
 	slog.SetDefault(slog.New(slog.NewTextHandler(io.Discard, nil)))
 	text, err := io.ReadAll(os.Stdin)
@@ -1694,6 +1763,9 @@ func runC18() {
 	case "start":
 		childStart()
 		return
+	case "refused":
+		childRefused()
+		return
 	}
 	if *flagStage == "fields" {
 		runFields()
@@ -1874,6 +1946,22 @@ func runC18() {
 			meta.Count("start-child", map[bool]string{true: "started", false: "died"}[strings.HasPrefix(res.started, "started ")])
 		}
 		meta.Record(res.coq, res.accepted, res.readable)
+	}
+	// start-up over a refused file that carries non-default values (direct)
+	if out, errText := runChild("refused", nil, 30*time.Second); true {
+		lines := strings.Split(strings.TrimSpace(string(out)), "\n")
+		if len(lines) < 3 {
+			meta.DirectFail(map[string]any{"kind": "refused-file-start", "what": "the start-up over a refused configuration file did not complete", "output": string(out), "stderr": errText})
+		}
+		for _, l := range lines {
+			f := strings.SplitN(l, " ", 3)
+			if len(f) >= 2 {
+				meta.Count("refused_file_start", f[0]+" "+f[1])
+				if f[1] == "bad" {
+					meta.DirectFail(map[string]any{"kind": "refused-file-start", "file": f[0], "what": "start-up over an existing configuration file that is refused: the defaults are not what is in force / what the file left behind says", "detail": l})
+				}
+			}
+		}
 	}
 	os.RemoveAll("children")
 	w.Flush()
